@@ -5,9 +5,72 @@
 #include <cstdlib>
 #include <cstring>
 #include <vector>
+#include <algorithm>
+#include <cmath>
 using namespace nano;
+// mode `hist <i|d> <nthresholds> t... v...`: builds a real histogram over an integer ('i') or real ('d') value list and
+// compares every bin's count / mean / median with those of the values the counting rule (t_{b-1} <= v < t_b) puts there,
+// and bin(v) with the bin v was counted in.
+template <class tvalue>
+static int hist(const std::vector<double>& thr, std::vector<tvalue> values)
+{
+    tensor_mem_t<scalar_t, 1> thresholds(static_cast<tensor_size_t>(thr.size()));
+    for (size_t i = 0; i < thr.size(); ++i) thresholds(static_cast<tensor_size_t>(i)) = thr[i];
+    const auto h = histogram_t::make_from_thresholds(values.data(), values.data() + values.size(), thresholds);
+    auto sorted_thr = thr;
+    std::sort(sorted_thr.begin(), sorted_thr.end());
+    int bad = 0;
+    for (tensor_size_t b = 0; b < h.bins(); ++b)
+    {
+        std::vector<double> in;
+        for (const auto v : values)
+        {
+            const auto dv = static_cast<double>(v);
+            tensor_size_t  rule = 0;
+            for (const auto t : sorted_thr) rule += (t <= dv) ? 1 : 0;
+            if (rule == b) in.push_back(dv);
+        }
+        std::sort(in.begin(), in.end());
+        const auto n    = static_cast<tensor_size_t>(in.size());
+        double     mean = 0.0, med = 0.0;
+        for (const auto v : in) mean += v;
+        if (n > 0) { mean /= static_cast<double>(n); med = (n % 2 == 1) ? in[n / 2] : 0.5 * (in[n / 2 - 1] + in[n / 2]); }
+        const bool okc = h.count(b) == n;
+        const bool okm = n == 0 || (std::fabs(h.mean(b) - mean) <= 1e-9 * (1.0 + std::fabs(mean)) && std::fabs(h.median(b) - med) <= 1e-9 * (1.0 + std::fabs(med)));
+        if (!okc || !okm)
+        {
+            ++bad;
+            std::printf("{\"bin\": %lld, \"count\": %lld, \"expected_count\": %lld, \"mean\": %g, \"expected_mean\": %g, \"median\": %g, \"expected_median\": %g}\n",
+                        (long long)b, (long long)h.count(b), (long long)n, h.mean(b), mean, h.median(b), med);
+        }
+    }
+    for (const auto v : values)
+    {
+        tensor_size_t rule = 0;
+        for (const auto t : sorted_thr) rule += (t <= static_cast<double>(v)) ? 1 : 0;
+        if (h.bin(v) != rule) { ++bad; std::printf("{\"query\": %g, \"bin\": %lld, \"counting_rule\": %lld}\n", (double)v, (long long)h.bin(v), (long long)rule); }
+    }
+    std::printf("{\"mismatches\": %d}\n", bad);
+    return bad ? 1 : 0;
+}
+
 int main(int argc, char** argv)
 {
+    if (argc >= 5 && std::strcmp(argv[1], "hist") == 0)
+    {
+        const auto          nt = std::atoi(argv[3]);
+        std::vector<double> thr;
+        for (int i = 0; i < nt; ++i) thr.push_back(std::strtod(argv[4 + i], nullptr));
+        if (argv[2][0] == 'i')
+        {
+            std::vector<tensor_size_t> v;
+            for (int i = 4 + nt; i < argc; ++i) v.push_back(std::atoll(argv[i]));
+            return hist(thr, v);
+        }
+        std::vector<double> v;
+        for (int i = 4 + nt; i < argc; ++i) v.push_back(std::strtod(argv[i], nullptr));
+        return hist(thr, v);
+    }
     if (argc < 4 || std::strcmp(argv[1], "bin") != 0) return 2;
     const double                v = std::strtod(argv[2], nullptr);
     tensor_mem_t<scalar_t, 1>   thresholds(argc - 3);
